@@ -106,6 +106,14 @@ def axis_aligned():
     return _AX
 
 
+def ro(a):
+    """read-only float copy: handing the library a non-writeable array turns any in-place modification of a caller's
+    argument into an immediate exception (a finding), instead of a silent corruption that only a later call would see"""
+    a = np.array(a, float)
+    a.setflags(write=False)
+    return a
+
+
 def maxabs(x):
     x = np.asarray(x, float)
     if x.size == 0:
